@@ -57,6 +57,7 @@ def gen_case(rng, kind):
     spec["geometry"] = "g1"
     return {"spec": spec, "kind": kind, "parts": [int(rng.integers(1, 6)), int(rng.integers(1, 6))],
             "filter": bool(rng.random() < 0.35), "touch_cache": bool(rng.random() < 0.6), "presort": bool(rng.random() < 0.2),
+            "repack": int(rng.choice([3, 7, 12])) if rng.random() < 0.2 else 0,
             "npartitions": int(rng.integers(1, 13)) if rng.random() < 0.4 else int(rng.integers(1, max(2, min(12, n // 3)) + 1)), "p": int(rng.choice([1, 2, 6, 10, 15, 20]))}
 
 
@@ -98,6 +99,13 @@ def check_case(ctx, case):
                 return
             vals = gg.pylist(src[act].array)
             tbref = list(total_ref(kind, vals))
+            if case.get("repack"):
+                # the input is itself a packed frame (index already named hilbert_distance),
+                # packed before with another curve order
+                ok0, ddf0, tb0 = ctx.guarded(lambda: ddf.pack_partitions(npartitions=max(1, min(3, len(src))),
+                                                                           p=int(case["repack"])))
+                if ok0:
+                    ddf = ddf0
             ok, r, tb = ctx.guarded(lambda: (lambda pk: (pk.npartitions,
                                                          list(dask.compute(*pk.to_delayed())),
                                                          pk.divisions))
@@ -120,13 +128,14 @@ def check_case(ctx, case):
         ctx.case([spec["cols"][0]["elements"], spec["cols"][1]["elements"], npin, case["filter"], k, p],
                  nontrivial=nd >= 2)
         ctx.sig(kind, f"in{min(npin, 3)}", "filter" if case["filter"] else "-",
-                "presort" if case["presort"] else "-", f"out{min(k, 4)}", f"p{p}",
+                "presort" if case["presort"] else "-", "repack" if case.get("repack") else "-", f"out{min(k, 4)}", f"p{p}",
                 "missing" if any(v is None for v in vals) else "-")
         w = {"kind": kind, "n": len(src), "npartitions_in": npin, "npartitions": k, "p": p,
              "active": act}
         if npk != k:
             ctx.violation("partition-count", "pack_partitions:partition-count", w, expected=k,
                           observed=npk, case=case)
+        # (a re-packed frame has lost its original index: rows are compared without it anyway)
         in_recs = gf.multiset([(0, r_[1]) for r_ in gf.frame_records(src)])
         out_recs_list = []
         all_idx = []
